@@ -263,7 +263,9 @@ class proceed:
                     if all(group is not other for other in stale)
                 ]
                 inside = acc.fork() if selector.focus else acc
-                capmap = _selector_fit_cache[(self.fn, selector)]
+                capmap = _selector_fit_cache.get((self.fn, selector))
+                if capmap is None:
+                    capmap = fits_selector(self.fn, selector)
                 self.interactor.register(inside, capmap, close_at_exit=False)
                 self.own.append([selector, acc, inside])
             if inside is not None:
